@@ -123,6 +123,14 @@ pub fn dispatch(ctx: &Ctx, rep: &mut Report) {
                 crate::onris::c15::run(ctx, rep);
             }
         },
+        "C17" => {
+            if fm {
+                crate::onfm::c17::run(ctx, rep);
+            }
+            if ris {
+                crate::onris::c17::run(ctx, rep);
+            }
+        },
         other => {
             eprintln!("unknown check {other}");
             std::process::exit(3);
